@@ -254,6 +254,42 @@ func runC03(seed int64, tier string, sc *Script) map[string]any {
 			}
 			sc.Op("ok", "fr copied depth=%d node=%d filter=%s present=%s", depth, n0, filter, presentSet(ctx, dst, u))
 			evals++
+			// (c) the context is cancelled before the call (k = 0) or at the k-th predecessor
+			// lookup: the call may fail, but if it reports success the copied set must be right
+			if q == 0 {
+				for k := 0; k <= len(rec) && k <= 3; k++ {
+					cctx, cancel := context.WithCancel(ctx)
+					o := mkOpts()
+					calls := 0
+					innerC := o.FindPredecessors
+					o.FindPredecessors = func(ctx context.Context, s content.ReadOnlyGraphStorage, d ocispec.Descriptor) ([]ocispec.Descriptor, error) {
+						mu.Lock()
+						calls++
+						hit := calls == k
+						mu.Unlock()
+						if hit {
+							cancel()
+						}
+						if innerC != nil {
+							return innerC(ctx, s, d)
+						}
+						return s.Predecessors(ctx, d)
+					}
+					if k == 0 {
+						cancel()
+					}
+					dstC := memory.New()
+					err := oras.ExtendedCopyGraph(cctx, src, dstC, u.Nodes[n0].Desc, o)
+					cancel()
+					if err == nil {
+						sc.Count("cancelled:returned-nil")
+						sc.Op("ok", "fr copied depth=%d node=%d filter=%s present=%s", depth, n0, filter, presentSet(ctx, dstC, u))
+					} else {
+						sc.Count("cancelled:error")
+					}
+					evals++
+				}
+			}
 		}
 		os.RemoveAll(dir)
 		os.Remove(dir + ".tar")
